@@ -30,11 +30,12 @@
 
 #define MAXCLI 3
 #define MAXREC 16
-#define MAXIT  8
+#define MAXIT  4
+#define BURST  3
 
 /* ---- accept answers --------------------------------------------------- */
 enum { A_REAL, A_EAGAIN, A_EINTR, A_ECONNABORTED, A_EMFILE, A_ENOMEM, A_SOCKLEN0, A_STICKY_EMFILE, A_STICKY_ECONNABORTED, A_N };
-static const char *const ans_name[A_N] = { "real", "EAGAIN", "EINTR", "ECONNABORTED", "EMFILE", "ENOMEM", "socklen0", "sticky-EMFILE", "sticky-ECONNABORTED" };
+static const char *const ans_name[A_N] = { "real", "EAGAIN", "EINTR", "ECONNABORTED", "EMFILE", "ENOMEM", "socklen0", "burst-EMFILE", "burst-ECONNABORTED" };
 
 /* ---- configuration ---------------------------------------------------- */
 enum { K_TCP_NEW, K_UNIX_NEW, K_TCP_BIND, K_N };
@@ -74,7 +75,7 @@ static struct event_base *base;
 static struct evconnlistener *lev;
 static int lfd = -1;
 static struct sockaddr_storage laddr; static socklen_t laddrlen;
-static int armed, accept_calls, sticky, pending_err, pending_err_errno, in_loop;
+static int armed, accept_calls, sticky, sticky_left, pending_err, pending_err_errno, in_loop;
 static int n_errcb, n_deliv;
 
 static char ud1, ud2;                 /* user_data for cb1 / cb2 */
@@ -149,11 +150,15 @@ static int scripted_accept(int fd, struct sockaddr *addr, socklen_t *alen, int f
 	else if (!M.had_cb) mc_fail("C44/accept-before-callback-set", "accept() although the listener never had a callback (documented: treated as disabled)");
 	else MC_COUNT("oracle_accept_allowed_checked");
 
-	if (sticky) a = sticky;
+	/* NB: event_base_loop(EVLOOP_NONBLOCK) only returns once no callback is active, and a
+	 * failing accept leaves the listening fd readable, so a "permanent" failure has to be a
+	 * finite burst: the next BURST accept calls all fail with the same errno (one deviation). */
+	if (sticky_left > 0) { a = sticky; sticky_left--; }
 	else {
+		sticky = 0;
 		a = mc_choose(A_N, 1, "accept");
-		if (a == A_STICKY_EMFILE) { sticky = A_EMFILE; a = A_EMFILE; }
-		else if (a == A_STICKY_ECONNABORTED) { sticky = A_ECONNABORTED; a = A_ECONNABORTED; }
+		if (a == A_STICKY_EMFILE) { sticky = A_EMFILE; a = A_EMFILE; sticky_left = BURST - 1; }
+		else if (a == A_STICKY_ECONNABORTED) { sticky = A_ECONNABORTED; a = A_ECONNABORTED; sticky_left = BURST - 1; }
 	}
 	if (a != A_REAL && a != A_SOCKLEN0) {
 		static const int e[] = { 0, EAGAIN, EINTR, ECONNABORTED, EMFILE, ENOMEM };
@@ -352,7 +357,7 @@ static void end_of_iteration(void)
 static void loop_step(void)
 {
 	int it, quiescent = 0;
-	sticky = 0;
+	sticky = sticky_left = 0;
 	for (it = 0; it < MAXIT; it++) {
 		int before = accept_calls, cbs = n_deliv + n_errcb;
 		in_loop = 1;
@@ -360,9 +365,8 @@ static void loop_step(void)
 		in_loop = 0;
 		end_of_iteration();
 		if (accept_calls == before && n_deliv + n_errcb == cbs) { quiescent = 1; break; }
-		if (sticky && it >= 2) break;                 /* a permanent failure never quiesces: three rounds of it */
 	}
-	if (!quiescent && !sticky) mc_fail("harness:no-quiescence", "listener still busy after %d iterations", MAXIT);
+	if (!quiescent) mc_fail("harness:no-quiescence", "listener still busy after %d iterations", MAXIT);
 	/* liveness: enabled + callback + no fault in force ⇒ the kernel queue has been drained */
 	if (quiescent && !M.freed && M.enabled && M.cb) {
 		struct pollfd p = { lfd, POLLIN, 0 };
@@ -372,7 +376,7 @@ static void loop_step(void)
 		if (poll(&p, 1, 0) != 0 || npend)
 			mc_fail("C44/pending-not-accepted", "listener enabled with a callback and idle, but %d connection(s) are still waiting in the accept queue", npend);
 	}
-	sticky = 0;
+	sticky = sticky_left = 0;
 	mc_observe("| ");
 }
 
@@ -427,7 +431,7 @@ static void body(void)
 	int threads = mc_param("threads", 1);
 
 	memset(&M, 0, sizeof M); memset(cli, 0, sizeof cli); memset(rec, 0, sizeof rec);
-	ncli = nrec = 0; armed = accept_calls = sticky = pending_err = in_loop = n_errcb = n_deliv = 0;
+	ncli = nrec = 0; armed = accept_calls = sticky = sticky_left = pending_err = in_loop = n_errcb = n_deliv = 0;
 	lev = NULL; lfd = -1;
 
 	int a = mc_choose(K_N * 2 * 2, 0, "cfgA");
